@@ -39,6 +39,9 @@ BUILTIN_ENUMS = {
     "IpAddr": ["V4", "V6"],
     "Level": ["Error", "Warn", "Info", "Debug", "Trace"],
     "LevelFilter": ["Off", "Error", "Warn", "Info", "Debug", "Trace"],
+    "RecvTimeoutError": ["Timeout", "Disconnected"],
+    "TryRecvError": ["Empty", "Disconnected"],
+    "Bound": ["Included", "Excluded", "Unbounded"],
 }
 ORDERING_VALUES = {"Less": -1, "Equal": 0, "Greater": 1}
 
